@@ -180,7 +180,7 @@ func checkC06(w *World, r *Report) {
 			dt := tm.OperandAt(site.Fr, site.In, c.Args[1])
 			okD := true
 			for _, alt := range dt.Alts() {
-				if fieldBase(alt, "PayingCoinDenom") == nil {
+				if fieldBase(uncell(alt), "PayingCoinDenom") == nil {
 					okD = false
 				}
 			}
